@@ -253,7 +253,9 @@ func handleClientMessages(server, client net.Conn, id int) {
 			reportFeed.RecordClientBuffer(&data, uint64(id), n)
 			server.Write(data[:n])
 		}
-		if err != nil && err == io.EOF { // INCONSISTENT?
+		if err != nil {
+			// End of input or a broken connection: either way nothing more
+			// will come from this client.
 			fmt.Println(err)
 			return
 		}
@@ -272,8 +274,14 @@ func handleServerMessages(server, client net.Conn, id int) {
 			reportFeed.RecordServerBuffer(&data, uint64(id), n)
 			client.Write(data[:n])
 		}
-		if err != nil && err != io.EOF { // INCONSISTENT?
-			fmt.Fprintf(os.Stderr, "%s\n", err.Error())
+		if err != nil {
+			// The server has finished sending (EOF) or the connection is
+			// broken: either way nothing more will come from the server.
+			// (The client may still be sending, so the connections are left
+			// open - handleMessages closes them when the client has finished.)
+			if err != io.EOF {
+				fmt.Fprintf(os.Stderr, "%s\n", err.Error())
+			}
 			break
 		}
 	}
